@@ -116,7 +116,7 @@ func modelEffects(full string) []string {
 }
 
 var pureModels = map[string]bool{
-	"strings.HasPrefix": true, "strings.IndexByte": true, "strings.TrimSpace": true, "strings.TrimLeft": true,
+	"strings.HasPrefix": true, "strings.Contains": true, "strings.IndexByte": true, "strings.TrimSpace": true, "strings.TrimLeft": true,
 	"strconv.ParseUint": true, "strconv.FormatUint": true, "strconv.FormatInt": true, "strconv.FormatFloat": true,
 	"strconv.ParseFloat": true, "(time.Duration).Seconds": true, "math.Round": true, "math.Ceil": true, "math.Floor": true,
 	"(time.Time).Add": true, "(time.Time).Sub": true, "bytes.Equal": true, "fmt.Errorf": true, "errors.New": true,
@@ -188,6 +188,8 @@ func (vc *VC) modelCall(fr *Frame, st *State, callee *ssa.Function, args []strin
 		r := vc.def("Bool", fmt.Sprintf("(sprefix %s %s)", args[0], args[1]), "hasprefix")
 		vc.fact(st.pc, fmt.Sprintf("(=> %s (>= (slen %s) (slen %s)))", r, args[0], args[1]))
 		return []string{r}, true
+	case "strings.Contains":
+		return []string{vc.def("Bool", fmt.Sprintf("(scontains %s %s)", args[0], args[1]), "contains")}, true
 	case "strings.IndexByte":
 		r := vc.fresh("Int", "indexbyte")
 		vc.fact(st.pc, fmt.Sprintf("(and (<= (- 1) %s) (< %s (slen %s)) (=> (>= %s 0) (= (sbyte %s %s) %s)))", r, r, args[0], r, args[0], r, args[1]))
@@ -200,7 +202,8 @@ func (vc *VC) modelCall(fr *Frame, st *State, callee *ssa.Function, args []strin
 		r := vc.fresh("Slice", "split")
 		vc.typeFacts(st, r, callee.Signature.Results().At(0).Type())
 		vc.fact(st.pc, fmt.Sprintf("(and (>= (s_len %s) 1) (> (s_arr %s) 0))", r, r))
-		vc.assume("T3 strings.Split with a non-empty separator returns at least one element")
+		vc.fact(st.pc, fmt.Sprintf("(=> (scontains %s %s) (>= (s_len %s) 2))", args[0], args[1], r))
+		vc.assume("T3 strings.Split with a non-empty separator returns at least one element, at least two when the separator occurs")
 		return []string{r}, true
 	case "strings.SplitN":
 		r := vc.fresh("Slice", "splitn")
